@@ -7,7 +7,8 @@ from vlib import basic
 
 LEVEL = 'proof'
 RULE = ('one case = one statement of a random history (PRINT with wrap/scroll/control characters, CLS, COLOR, LOCATE, '
-        'VIEW PRINT, KEY ON/OFF, SCREEN mode/page switches, WIDTH, PCOPY, POKE into video memory, PSET/LINE/CIRCLE/'
+        'VIEW PRINT, KEY ON/OFF, SCREEN mode/page switches (also four-argument SCREEN and WIDTH between modes with '
+        'different page counts from high page numbers), WIDTH, PCOPY, POKE into video memory, PSET/LINE/CIRCLE/'
         'PAINT/GET/PUT/DRAW/VIEW, INPUT with typed keys) executed in a real Session of one of the adapters cga/ega/vga/tandy/pcjr/hercules/'
         'olivetti with a recording video queue, checked after the statement; plus one case per operation of random '
         'operation histories on real VideoBuffer pages of small geometry; non-trivial = the statement emitted at '
@@ -438,6 +439,11 @@ def rand_text(rng, width):
     return ''.join(rng.choice(alphabet) for _ in range(n))
 
 
+def rand_page(rng):
+    """page numbers: the low ones every mode has, and high ones only some modes have (40-column text: 8 pages)"""
+    return rng.choice([0, 0, 1, 1, 2, 3, rng.randrange(8)])
+
+
 def gen_statement(rng, st):
     """One BASIC statement (class label, text).  `st` tracks a guess of mode/width for realistic coordinates;
     statements that turn out illegal simply print an error message (which is text output, too)."""
@@ -475,11 +481,16 @@ def gen_statement(rng, st):
         st['mode'] = m
         st['width'] = {0: st['width'] if st['width'] in (40, 80) else 80, 1: 40, 2: 80, 3: 80 if st['video'] in (
             'hercules', 'olivetti') else 20, 4: 40, 5: 40, 6: 80, 7: 40, 8: 80, 9: 80}.get(m, 80)
+        if rng.random() < 0.4:
+            # all four arguments: a mode change that names its pages (the page list is rebuilt while
+            # the old active/visible page numbers may lie beyond the new mode's page count)
+            st['cs'] = rng.randrange(2)
+            return 'screen-full', 'SCREEN %d,%d,%d,%d' % (m, st['cs'], rand_page(rng), rand_page(rng))
         st['cs'] = 0        # an omitted colorswitch is taken as 0
         return 'screen', 'SCREEN %d' % m
     if k < 0.76:
         # page switches keep the mode only if the colorswitch is repeated (an omitted one counts as 0)
-        a, v = rng.randrange(4), rng.randrange(4)
+        a, v = rand_page(rng), rand_page(rng)
         cs = st.get('cs', 1) if rng.random() < 0.85 else ''
         if cs == '':
             st['cs'] = 0
@@ -491,7 +502,7 @@ def gen_statement(rng, st):
             st['width'] = w
         return 'width', 'WIDTH %d' % w
     if k < 0.82:
-        return 'pcopy', 'PCOPY %d,%d' % (rng.randrange(4), rng.randrange(4))
+        return 'pcopy', 'PCOPY %d,%d' % (rand_page(rng), rand_page(rng))
     if k < 0.87:
         # typed input echoed by the line editor (wraps at the right border and scrolls the rows below DOWN)
         return 'input', '@keys=%d@LOCATE %d,%d:INPUT A$' % (rng.choice([0, 3, 15, 30, 90]), rng.randint(1, 24),
@@ -629,7 +640,7 @@ def run_history(ctx, cfg, hist, report, tmpdir=None, resume_at=()):
         if d:
             report('chars', idx, label, d)
             return
-        if label in ('screen', 'screen-page', 'pcopy', 'width') or idx % 7 == 6:
+        if label in ('screen', 'screen-full', 'screen-page', 'pcopy', 'width') or idx % 7 == 6:
             d = run.check_rebuild()
             ctx.count('rebuild-checks')
             if d:
@@ -726,6 +737,109 @@ def session_level(ctx, nhist, nstmt):
         shutil.rmtree(tmpdir, ignore_errors=True)
 
 
+# ---------------------------------------------------------------------------------------------
+# mode changes between modes with DIFFERENT page counts while the active/visible page number is high
+
+def mode_states(cfg):
+    """(mode, text width or None) states of an adapter; text mode counts once per width (8 vs 4 pages)"""
+    res = []
+    for m in cfg['modes']:
+        if m == 0:
+            res += [(0, 40), (0, 80)]
+        else:
+            res.append((m, None))
+    return res
+
+
+def enter_state(state, page, two_step, rng):
+    """statements that end in `state` with active = visible = `page` (illegal ones just print an error)"""
+    m, w = state
+    cs = 1 if m == 0 else 0
+    out = []
+    if m == 0:
+        out.append(('screen-full', 'SCREEN 0,%d,0,0' % cs))
+        out.append(('width', 'WIDTH %d' % w))
+    if two_step or m == 0:
+        if m != 0:
+            out.append(('screen-full', 'SCREEN %d,%d,0,0' % (m, cs)))
+        out.append(('screen-page', 'SCREEN ,%d,%d,%d' % (cs, page, page)))
+    else:
+        out.append(('screen-full', 'SCREEN %d,%d,%d,%d' % (m, cs, page, page)))
+    return out, cs
+
+
+def page_count_history(rng, cfg, a_state, b_state, page):
+    hist, cs = enter_state(a_state, page, rng.random() < 0.5, rng)
+    hist.append(('print', 'PRINT "PAGE %d OF %s"' % (page, a_state[0])))
+    if rng.random() < 0.5:
+        hist.append(('color', 'COLOR %d,%d' % (rng.randrange(1, 16), rng.randrange(8))))
+    if rng.random() < 0.3:
+        hist.append(('pcopy', 'PCOPY %d,%d' % (page, rng.choice([0, 1, page]))))
+    # the transition: the page list is rebuilt; pages are given explicitly (WIDTH always passes 0,0)
+    bm, bw = b_state
+    bcs = 1 if bm == 0 else 0
+    low = rng.choice([(0, 0), (0, 0), (1, 1), (0, 1), (1, 0)])
+    if bm == 0 and a_state[0] == 0:
+        hist.append(('width', 'WIDTH %d' % bw))
+    elif bm == 0:
+        hist.append(('screen-full', 'SCREEN 0,%d,%d,%d' % (bcs, low[0], low[1])))
+        hist.append(('width', 'WIDTH %d' % bw))
+    else:
+        hist.append(('screen-full', 'SCREEN %d,%d,%d,%d' % (bm, bcs, low[0], low[1])))
+    # text and graphics output afterwards, compared after every statement
+    hist.append(('print', 'PRINT "AFTER THE SWITCH"'))
+    hist.append(('locate', 'LOCATE %d,%d' % (rng.randint(2, 20), rng.randint(1, 15))))
+    hist.append(('print', 'PRINT "%s";' % rand_text(rng, 40)))
+    hist.append(('line', 'LINE (%d,%d)-(%d,%d),%d,B' % (rng.randrange(100), rng.randrange(100), rng.randrange(150),
+                                                    rng.randrange(150), rng.randrange(1, 4))))
+    hist.append(('color', 'COLOR %d,%d' % (rng.randrange(1, 16), rng.randrange(1, 4))))
+    hist.append(('cls', 'CLS'))
+    hist.append(('print-loop', 'FOR I=1 TO 26:PRINT I:NEXT'))
+    hist.append(('screen-page', 'SCREEN ,%d,0,0' % bcs))
+    hist.append(('print', 'PRINT "PAGE ZERO"'))
+    return hist
+
+
+def page_count_level(ctx, nrandom, all_pairs):
+    rng = ctx.rng
+    for ci, cfg in enumerate(CONFIGS):
+        states = mode_states(cfg)
+        plans = []
+        if all_pairs:
+            for a in states:
+                for b in states:
+                    if a != b:
+                        for page in (rng.choice([1, 2, 3]), rng.choice([4, 5, 6, 7])):
+                            plans.append((a, b, page))
+        else:
+            # the deterministic core: from 40-column text (8 pages) on a page 80-column text does not have,
+            # and from a high text page into every graphics mode of the adapter
+            if (0, 40) in states and (0, 80) in states:
+                plans.append(((0, 40), (0, 80), rng.choice([4, 5, 6, 7])))
+            text = (0, 80) if (0, 80) in states else states[0]
+            for b in states:
+                if b[0] != 0:
+                    plans.append((text, b, rng.choice([1, 2, 3])))
+        for _ in range(nrandom):
+            a, b = rng.choice(states), rng.choice(states)
+            plans.append((a, b, rng.choice([1, 2, 3, 5, 7])))
+        for a, b, page in plans:
+            hist = page_count_history(rng, cfg, a, b, page)
+            ctx.count('page-count-histories')
+            found = []
+            run_history(ctx, cfg, hist, lambda kind, idx, label, what: found.append((kind, idx, label, what)))
+            if found:
+                kind, idx, label, what = found[0]
+                prefix = hist[:idx + 1]
+                if kind in ('screen', 'chars', 'rebuild'):
+                    prefix = shrink(ctx, cfg, prefix, kind, budget=12)
+                ctx.fail('%s:%s' % (kind, label),
+                         {'level': 'session', 'cfg': dict(cfg), 'history': prefix, 'resume_at': []},
+                         '%s (%s): mode change %s -> %s from page %d; after %s the display that applies the emitted '
+                         'video signals differs from the interpreter: %s'
+                         % (cfg['video'], kind, a, b, page, ' : '.join(s for _, s in prefix[-4:]), what))
+
+
 # boundary histories from the design (D12 and its single-row variant, page switches, key bar, wrapping)
 FIXED_HISTORIES = [
     (0, ['SCREEN 0', 'COLOR 7,1', 'CLS', 'FOR I=1 TO 30:PRINT I:NEXT']),
@@ -763,6 +877,8 @@ def run(ctx):
     ctx.log('fixed histories done')
     buffer_level(ctx, 250 if ctx.quick else 4000)
     ctx.log('buffer-level histories done')
+    page_count_level(ctx, 1 if ctx.quick else 6, not ctx.quick)
+    ctx.log('page-count histories done')
     if ctx.quick:
         session_level(ctx, 27, 45)
     else:
